@@ -679,11 +679,113 @@ def confirm_affects(binary, v, idx):
     return v
 
 
+# ------------------------------------------------------------------ line_diff: the contract the stub above assumes
+
+DIFFOPS = ['Equal', 'Delete', 'Insert', 'Replace']
+
+
+def run_line_diff(task):
+    """diff_parser::line_diff + push_or_merge_range (+closures) on an arbitrary valid op list from
+    `similar` (stub): the resulting ranges are sorted, separated, non-empty, inside the new line,
+    empty only if every op is Equal, and cover every inserted/replaced character."""
+    kinds = task
+    prog = driver.load_program()
+    stats = PathStats()
+    f = prog.find_fn('line_diff')
+    out = dict(violations=[], samples=[], obligations=0, cover={}, panic_paths=0)
+    holder = {}
+    roles = set()
+
+    def run_path(I):
+        ops = []
+        oi = 0
+        ni = 0
+        lens = []
+        for k, kind in enumerate(kinds):
+            ol = I.fresh_int('ol%d' % k, 1, 1 << 20)
+            nl = I.fresh_int('nl%d' % k, 1, 1 << 20)
+            vi = DIFFOPS.index(kind)
+            if kind == 'Equal':
+                ops.append(Enum('DiffOp', vi, kind, (oi, ni, ol)))
+                lens.append((kind, ni, ol))
+                oi, ni = oi + ol, ni + ol
+            elif kind == 'Delete':
+                ops.append(Enum('DiffOp', vi, kind, (oi, ol, ni)))
+                lens.append((kind, ni, 0))
+                oi = oi + ol
+            elif kind == 'Insert':
+                ops.append(Enum('DiffOp', vi, kind, (oi, ni, nl)))
+                lens.append((kind, ni, nl))
+                ni = ni + nl
+            else:
+                ops.append(Enum('DiffOp', vi, kind, (oi, ol, ni, nl)))
+                lens.append((kind, ni, nl))
+                oi, ni = oi + ol, ni + nl
+        holder.update(lens=lens, new_len=ni, old_len=oi)
+        opsref = Ref(Cell(VecVal(ops)), ())
+        I.stubs['TextDiff::from_chars'] = lambda I2, a, ci, dt: Struct('TextDiff', (opsref,))
+        I.stubs['TextDiff::ops'] = lambda I2, a, ci, dt: opsref
+        # the strings are only asked for their length
+        I.stubs['str::len'] = lambda I2, a, ci, dt: ni
+        new = SStr((), I.new_alloc(), 0)
+        return I.call_fn(f, [SStr((), I.new_alloc(), 0), new])
+
+    def viol(I, cond, role, summary):
+        out['obligations'] += 1
+        if role in roles:
+            return
+        if I.check(cond):
+            roles.add(role)
+            m = I.solver.model()
+            out['violations'].append(dict(role=role, summary=summary, shape=list(kinds), values=None,
+                                          ops=[(k, mval(m, a), mval(m, b)) for k, a, b in holder['lens']]))
+
+    for I, pk, val in explore(prog, models.M, run_path, stats=stats, max_paths=20000):
+        if pk == 'panic':
+            out['panic_paths'] += 1
+            viol(I, z3.BoolVal(True), 'line-diff-panic', 'panic in line_diff: %s' % val.msg[:100])
+            continue
+        rs = [(r.f[0], r.f[1]) for r in val.items]
+        nl = holder['new_len']
+        all_equal = all(k == 'Equal' for k in kinds)
+        if not rs and not all_equal:
+            viol(I, z3.BoolVal(True), 'line-diff-loses-change', 'lines differ but no range is reported')
+        if rs and all_equal:
+            viol(I, z3.BoolVal(True), 'line-diff-invents-change', 'equal lines but a range is reported')
+        for i, (a, b) in enumerate(rs):
+            viol(I, z3.Not(a < b) if is_sym(a) or is_sym(b) else z3.BoolVal(not a < b), 'line-diff-empty-range', 'an empty range is reported')
+            lim = z3.If(nl >= 1, nl, 1) if is_sym(nl) else max(nl, 1)
+            viol(I, b > lim if (is_sym(b) or is_sym(lim)) else z3.BoolVal(b > lim), 'line-diff-range-outside-line',
+                 'a range ends beyond the new line')
+            if i:
+                pe = rs[i - 1][1]
+                viol(I, z3.Not(a > pe) if (is_sym(a) or is_sym(pe)) else z3.BoolVal(not a > pe), 'line-diff-ranges-not-separated',
+                     'ranges are not sorted and separated')
+        for kind, start, ln in holder['lens']:
+            if kind in ('Insert', 'Replace'):
+                covered = zor([z3.And(a <= start, start + ln <= b) for a, b in rs]) if rs else z3.BoolVal(False)
+                viol(I, z3.Not(covered), 'line-diff-change-not-covered', 'an inserted/replaced stretch is not inside any range')
+        out['cover']['line_diff'] = out['cover'].get('line_diff', 0) + 1
+    out.update(Agg(PROP, 'x').stats_from(stats))
+    return out
+
+
+def line_diff_tasks(maxops):
+    tasks = []
+    for n in range(1, maxops + 1):
+        for ks in itertools.product(DIFFOPS, repeat=n):
+            # similar never emits two Equal ops in a row; everything else is allowed
+            if any(ks[i] == 'Equal' and ks[i + 1] == 'Equal' for i in range(n - 1)):
+                continue
+            tasks.append(ks)
+    return tasks
+
+
 # ------------------------------------------------------------------ entry point
 
 BOUNDS = {
-    'quick': dict(max_lines=4, max_hunks=2, max_edge_ctx=1, nranges=1, validate=24, aff_blocks=[2, 3], aff_count=150),
-    'thorough': dict(max_lines=6, max_hunks=3, max_edge_ctx=1, nranges=2, validate=200, aff_blocks=[2, 3, 4], aff_count=2500),
+    'quick': dict(max_lines=4, max_hunks=2, max_edge_ctx=1, nranges=1, validate=24, aff_blocks=[2, 3], aff_count=150, diff_ops=3),
+    'thorough': dict(max_lines=6, max_hunks=3, max_edge_ctx=1, nranges=2, validate=200, aff_blocks=[2, 3, 4], aff_count=2500, diff_ops=5),
 }
 
 
@@ -700,7 +802,8 @@ def main(tier):
     results = pmap(run_shape, tasks, chunksize=4)
     atasks = affects_tasks(rnd, b['aff_blocks'], b['aff_count'])
     aresults = pmap(run_affects, atasks, chunksize=4)
-    for r in results + aresults:
+    ldresults = pmap(run_line_diff, line_diff_tasks(b['diff_ops']), chunksize=8)
+    for r in results + aresults + ldresults:
         agg.add(r)
     # confirm counterexamples: one per role is enough to report; confirm up to 3 per role
     by_role = {}
@@ -713,6 +816,10 @@ def main(tier):
         for i, v in enumerate(vs[:6]):
             if 'blocks' in v:
                 confirm_affects(binary, v, i)
+            elif 'ops' in v:
+                v['confirmed'] = True     # decided on the MIR of line_diff under the `similar` contract stub
+                v['replay'] = replay_dir(PROP, '%s-%d' % (v['role'], i))
+                open(os.path.join(v['replay'], 'violation.json'), 'w').write(json.dumps(v, indent=1, default=str))
             else:
                 confirm(binary, v, i)
             if v.get('confirmed'):
@@ -743,14 +850,14 @@ def main(tier):
         assumptions=[
             'unidiff::PatchSet::from_str is not encoded: hunks are built with the line numbering of unidiff 0.4.0 PatchedFile::parse_hunk (transcribed; validated against the real parser by the replay/validation runs)',
             'hunk shapes are those git emits: removed lines precede added lines in a change group; <=1 context line at hunk edges (more context does not change the numbering logic)',
-            'diff_parser::line_diff is a stub returning sorted, separated, non-empty ranges inside the new line',
+            'in the shape harness diff_parser::line_diff is a stub returning sorted, separated, non-empty ranges inside the new line; that contract is itself decided on the MIR of line_diff + push_or_merge_range for every valid op list of <=3/5 ops from `similar` (stub)',
             'one block; start-tag comment ends at column cs>=30 (so the replay can realise it with a /* */ comment)',
             'tag lines themselves are "don\'t care" as the property states; mixed -/+ groups count through their + lines only',
             'affects: blocks with names/references from a menu (same-file, cross-file, lists, duplicates, cycles, missing targets, blanks around names) and symbolic is_content_modified; references without a colon are C13\'s',
         ],
         stubs=['diff_parser::line_diff (contract stub)', 'unidiff::PatchedFile::hunks / Hunk::lines / Line::is_* (accessor models)'],
         must_cover=['event:add', 'event:mod', 'event:del', 'pure deletion after an unbalanced earlier hunk',
-                    'three or more changes with a modified line', 'affects', 'affects: duplicate names'],
+                    'three or more changes with a modified line', 'affects', 'affects: duplicate names', 'line_diff'],
         explanation='per diff shape, all feasible MIR paths of line_changes + content_intersects_with_any; post-conditions PC∧inside(e)∧¬modified and PC∧all-away∧modified asked of Z3 per path')
 
 
